@@ -6,7 +6,12 @@
    * C07_interleave_invariant / C07_conc_content_inv: an invariant kept by every (state-independently safe) step holds
      in every reachable state — no reader ever sees partial content under an address;
    * C07_appends_never_splice: appends of any threads to one bucket give the whole records in step order.
-   Serialisability, bounded (the bound is part of each statement): for the nine concrete pairs below — drawn from the
+   * C07_conc_index_serializable — UNBOUNDED serialisability of the index: any number of concurrent index writers
+     (inserts and tombstone removals: the index phase of every keyed write and of every removal), any interleaving of
+     their mkdir / open(O_CREAT|O_APPEND) / append steps, from any tree with a well-shaped index area: no step fails,
+     every operation returns Ok, and the final buckets and lookups are those of running the operations serially in the
+     order of their append steps (a permutation of the operations).  No successful write is lost or spliced.
+   Serialisability of whole operations, bounded (the bound is part of each statement): for the nine concrete pairs below — drawn from the
    property's operation set on cold and warm caches, with a toy hash, concrete keys and contents (two writers of one key /
    of one content are taken after their private temp-file phase, i.e. as two commits) — EVERY interleaving of
    the two operations' steps ends with results and a tree equal to those of one of the two serial orders
@@ -14,7 +19,8 @@
    [explore_complete]).  Partial: unbounded serialisability (all data / keys / cache states, three operations) is not
    proved — the writers' private temp-file phase needs a rely/guarantee argument that is left open; triples and the
    real kernel's atomicity are exercised by the forced-schedule suite on the real binaries. *)
-From CC Require Import Bytes Codec Utf8 Lines Json Sri Record Fs Prog Api Sess Crash Conc BytesP CodecP FsP ProgP SriP RecordP IndexP ReadP WriteP CommitP RemoveP CrashP ConcP.
+From CC Require Import Bytes Codec Utf8 Lines Json Sri Record Fs Prog Api Sess Crash Conc BytesP CodecP FsP ProgP SriP RecordP IndexP ReadP WriteP CommitP RemoveP CrashP CrashIdxP FormatP ConcP ConcIdxP.
+From Coq Require Import Permutation.
 Local Open Scope N_scope.
 
 Section C07.
@@ -38,6 +44,23 @@ Theorem C07_appends_never_splice l d recs f :
   lookup f l = Some (File d) ->
   lookup (fold_left (fun g r => snd (exec (Append l r) g)) recs f) l = Some (File (d ++ List.concat recs)).
 Proof. exact (appends_never_splice l d recs f). Qed.
+
+Theorem C07_conc_index_serializable hs f0 pl' f' rs :
+  IndexInv f0 -> Forall (wf_hop hash) hs ->
+  preach (map (hop_prog hash) hs, f0) (pl', f') -> results pl' = Some rs ->
+  exists perm,
+    Permutation perm hs /\
+    rs = repeat (Ok tt) (List.length hs) /\
+    IndexInv f' /\
+    (forall b, bshape b -> bucket_at f' b = bucket_at (fold_left (exec_hop hash) perm f0) b) /\
+    (forall k, abs_idx hash f' k = fold_left spec_step perm (abs_idx hash f0) k).
+Proof. exact (conc_index_serializable hash hs f0 pl' f' rs). Qed.
+
+(* the thread programs of that theorem are the library's index programs *)
+Theorem C07_hop_prog_is_insert key o now :
+  insert hash key o now = seq_prog (hop_steps hash (HIns key o now)) (match o_sri o with Some i => i | None => deadbeef end) /\
+  hop_prog hash (HIns key o now) = seq_prog (hop_steps hash (HIns key o now)) tt.
+Proof. split; reflexivity. Qed.
 
 End C07.
 
@@ -145,5 +168,7 @@ Print Assumptions C07_explore_complete.
 Print Assumptions C07_interleave_invariant.
 Print Assumptions C07_conc_content_inv.
 Print Assumptions C07_appends_never_splice.
+Print Assumptions C07_conc_index_serializable.
+Print Assumptions C07_hop_prog_is_insert.
 Print Assumptions C07_pairs_serializable.
 Print Assumptions C07_pairs_all_interleavings.
